@@ -32,7 +32,7 @@ META = {
                     "default UnifiedFileDiffer; device hw 'PC' with soft 'Cumulus Linux 5.4.0' (reload commands get the etckeeper suffix) and a plain 'PC' whose third generator has an empty reload command", "generator priorities are class attributes, sets (0,70,300) / (300,70,0) / (70,300,0) / (100,300,200)"],
     "outside": ["JSON fragment generators (C13)", "FrrFileDiffer rulebook-based diff", "more than 3 generators / 2 paths"],
     "bounds": {"quick": "3 generators, 2 paths, unbounded distinct priorities; flow: 3 generators x 2 paths x 3 contents x 3 old contents^2 x 3 reload flags x safe",
-               "thorough": "same with 5 content choices and all is_safe vectors"},
+               "thorough": "same with 4 content choices, all 4 priority sets and 4 is_safe vectors"},
 }
 
 
@@ -90,7 +90,7 @@ def h_prio(p0: int, p1: int, p2: int, perm: int, path_sel: int) -> bool:
 # ---------------------------------------------------------------- B: full flow
 # "" = "this file must be empty"; "  AAA" differs from "AAA" only by leading whitespace of the whole text
 CONTENTS = ["AAA\n", "", "  AAA\n", "AAA  \n", "line1\nline2\nline3\n", "BBB\n"]
-NCONT = 3 if rt.TIER == "quick" else 5
+NCONT = 3 if rt.TIER == "quick" else 4
 OLDS = [None] + CONTENTS[:NCONT]
 RELOAD = ["yes", "no", "force"]
 PRIOSETS = [(0, 70, 300), (300, 70, 0), (70, 300, 0), (100, 300, 200)]
@@ -229,7 +229,7 @@ def check_flow(cs):
 
 PATHSEL = [0, 1, 2, 6] if rt.TIER == "quick" else list(range(8))
 SAFEMODES = [(False, 7), (True, 7), (True, 5), (True, 2)] if rt.TIER == "quick" else \
-    [(False, 7)] + [(True, m) for m in range(8)]
+    [(False, 7)] + [(True, m) for m in (0, 2, 5, 7)]
 C3 = NCONT
 RAD = [len(PATHSEL), 3 if rt.TIER == "quick" else len(PRIOSETS), 6, 2, 2, C3, len(OLDS), len(OLDS) - 1, 3, len(SAFEMODES), 2]
 NFLOW = 1
